@@ -109,15 +109,16 @@ def run_given(sub, seed, tier, n, stats):
     test()
 
 
-def ddmin_trace(sub, trace, budget):
-    """Greedy removal of single steps from a failing machine trace."""
+def ddmin_trace(sub, trace, budget, signature):
+    """Greedy removal of single steps from a failing machine trace; a candidate counts as failing only if
+    it fails in the same way (exception type and start of the message)."""
     def fails(tr):
         try:
             run_oracle(sub, {'trace': tr})
         except Skip:
             return False
-        except BaseException:
-            return True
+        except BaseException as e:
+            return (type(e).__name__, str(e)[:40]) == signature
         return False
     calls = 0
     changed = True
@@ -153,7 +154,7 @@ def run_machine(sub, seed, tier, n, stats):
         trace = vm.LAST_TRACE
         if trace is not None:
             try:
-                small = ddmin_trace(sub, list(trace), {'quick': 60, 'thorough': 400}[tier])
+                small = ddmin_trace(sub, list(trace), {'quick': 60, 'thorough': 400}[tier], (type(e).__name__, str(e)[:40]))
             except BaseException:
                 small = list(trace)
             stats.last_spec = {'trace': small}
